@@ -873,6 +873,10 @@ func TestVerifC15(t *testing.T) {
 			"an iss value returned although the server does not advertise the parameter must still equal the issuer"},
 	}
 	vh.Run(t, cfg, func(c *vh.Case) {
+		if c.Index%200 == 199 {
+			c.Bubble("", func() { runC15Redirect(c) }) // see c15redirect_test.go
+			return
+		}
 		spec := genC15(c.R, c.Index)
 		c.SetSpec(spec)
 		c.Bubble("", func() { runC15(c, spec) })
